@@ -32,12 +32,13 @@ def vpath(s: str) -> Opaque:
 
 class World:
     def __init__(self, model: PyModel, *, files: dict[str, str], old_map: Optional[dict[str, str]], indexed: set[str], errors: set[str], whitelist: list[str], zdir: str = "/Z",
-                 contents: Optional[dict[str, str]] = None):
+                 contents: Optional[dict[str, str]] = None, missing: Optional[set] = None):
         """files: page name -> marker of its current content hash; old_map: content of file_hash.json (None = missing);
         indexed: page names that have rows in the database; errors: pages whose compilation reports errors."""
         self.model = model
         self.files, self.old_map, self.indexed, self.errors, self.whitelist, self.zdir = files, old_map, indexed, errors, whitelist, zdir
         self.contents = contents or {}
+        self.missing = missing or set()
         self.hash_path = f"{zdir}/.zorg/file_hash.json"
         self.wl_path = f"{zdir}/.zorg/error_file_whitelist.txt"
 
@@ -62,7 +63,9 @@ class World:
             if name in ("exists", "is_file"):
                 if p == W.hash_path:
                     return [(W.old_map is not None, st)]
-                return [(True, st)]
+                if W.missing == "all-but-contents":
+                    return [(p in W.contents, st)]
+                return [(p not in W.missing, st)]
             if name in ("read_bytes", "read_text"):
                 st.trace.append(("read", p))
                 if p == W.hash_path:
